@@ -269,4 +269,82 @@ theorem fold_subst (ps args : List (List Ch)) (hlen : args.length = ps.length)
       have := ih (encStep ps st c) [] _ (encStep_nonword ps args hlen hid st W out c hinv hw' hc1) hrest
       simpa [List.append_assoc] using this
 
+/-! ### what macros_strip / macros_append do to such a text: nothing -/
+
+theorem cstr_id (t : List Ch) (h : ∀ x ∈ t, OKc x) : cstr t = t := by
+  induction t with
+  | nil => rfl
+  | cons c t ih =>
+    have hc := (h c (by simp)).1
+    have : ¬ c = 0 := by omega
+    simp only [cstr, this, if_false]
+    rw [ih (fun x hx => h x (by simp [hx]))]
+
+theorem macrosStrip_id (t : List Ch) (h : ∀ x ∈ t, OKc x) : macrosStrip t = t := by
+  induction t with
+  | nil => rfl
+  | cons c t ih =>
+    obtain ⟨_, _, h1, h2⟩ := h c (by simp)
+    simp only [macrosStrip, h1, h2, if_false, false_and]
+    rw [ih (fun x hx => h x (by simp [hx]))]
+
+theorem normText_id (t : List Ch) (h : ∀ x ∈ t, OKc x) : normText t = t := by
+  unfold normText
+  have hm : t.map byteOf = t := by
+    induction t with
+    | nil => rfl
+    | cons c t ih =>
+      obtain ⟨h1, h2, _, _⟩ := h c (by simp)
+      have : byteOf c = c := by unfold byteOf; omega
+      simp only [List.map_cons, this]
+      rw [ih (fun x hx => h x (by simp [hx]))]
+  rw [hm]
+  exact cstr_id t h
+
+theorem foldl_inv (ps : List (List Ch)) (hps : ps.length < 47) : ∀ (cs : List Ch) (st : BodySt),
+    BodyInv st → Spec.plain cs → BodyInv (cs.foldl (encStep ps) st) := by
+  intro cs
+  induction cs with
+  | nil => intro st h _; exact h
+  | cons c cs ih =>
+    intro st h hp
+    simp only [List.foldl_cons]
+    exact ih _ (encStep_inv ps hps st c h (hp c (by simp))).1 (fun x hx => hp x (by simp [hx]))
+
+theorem encFinish_ok (ps : List (List Ch)) (hps : ps.length < 47) (st : BodySt) (h : BodyInv st) :
+    ∀ x ∈ encFinish ps st, OKc x := by
+  intro x hx
+  simp only [encFinish] at hx
+  rcases List.mem_append.mp hx with h1 | h1
+  · exact (nameStep_facts ps hps st 10 h).1 x h1
+  · simp only [List.mem_singleton] at h1
+    subst h1
+    unfold OKc ch
+    decide
+
+/-- **A plain `.define` text is stored as its word-wise substitution.**
+    For parameter names `ps` (identifiers, fewer than 47), a plain text `body` that does
+    not start with a blank, and any arguments: macros_parse's loop stores a text `enc`
+    that macros_strip and macros_append keep as it is, and whose expansion with `args`
+    is `body` with every parameter word replaced by its argument, plus the separating blank. -/
+theorem define_text_subst (ps args : List (List Ch)) (hlen : args.length = ps.length)
+    (hid : ∀ p ∈ ps, Spec.IsIdent p) (hps : ps.length < 47)
+    (body rest : List Ch) (hplain : Spec.plain body) (hfirst : body.head? ≠ some (ch ' '))
+    (hsize : 2 * body.length + 4 < maxMacroLen) (n : Nat) (hn : n > body.length) :
+    ∃ enc, (bodyLoop true ps n {}).runA (body ++ 10 :: rest) = (BodyRes.ok enc, rest) ∧
+      normText (macrosStrip (cstr enc)) = enc ∧
+      expandText args enc = (Spec.substWords ps (args.map normText) body ++ [ch ' '], false) := by
+  have hI0 : BodyInv ({} : BodySt) := ⟨by simp, by simp⟩
+  refine ⟨encFinish ps (body.foldl (encStep ps) {}), ?_, ?_, ?_⟩
+  · exact bodyLoop_plain ps hps rest body {} n hI0 hplain (Or.inr hfirst) (by simpa using hsize) hn
+  · have hok := encFinish_ok ps hps _ (foldl_inv ps hps body {} hI0 hplain)
+    rw [cstr_id _ hok, macrosStrip_id _ hok, normText_id _ hok]
+  · have hinv0 : SubInv args ({} : BodySt) [] [] :=
+      ⟨[], rfl, Closed_nil args, by simp, fun _ => ⟨rfl, rfl⟩, by intro c0 t h; simp at h⟩
+    have := fold_subst ps args hlen hid body {} [] [] hinv0 (by
+      intro c hc
+      have := (plainCh_facts (hplain c hc)).1
+      omega)
+    simpa [Spec.substWords] using this
+
 end NakenVerif.Macro
